@@ -5,3 +5,12 @@ import Dm.Props.C06
 #print axioms Dm.Props.C06.tuple_eq_std_plain_pretty
 #print axioms Dm.Props.C06.tuple_eq_std_counterexample
 #print axioms Dm.Props.C06.calls_follow_fields
+#print axioms Dm.Props.C06.padded_loop_is_pad
+#print axioms Dm.Props.C06.padded_chunking_independent
+#print axioms Dm.Props.C06.tuple_code_eq_model
+#print axioms Dm.Props.C06.nested_plain_val
+#print axioms Dm.Props.C06.nested_plain_vals
+#print axioms Dm.Props.C06.nested_eq_std
+#print axioms Dm.Props.C06.nested_insens_val
+#print axioms Dm.Props.C06.nested_insens_vals
+#print axioms Dm.Props.C06.nested_eq_std_all_options
